@@ -779,6 +779,8 @@ class LogicalFile:
         current_dataset_names = [ch.dataset_name for ch in self.channels]
 
         if dataset_name is not None:
+            if not isinstance(dataset_name, str):
+                raise TypeError(f"Expected a str, got a {type(dataset_name)}: {dataset_name}")
             if dataset_name in current_dataset_names:
                 raise ValueError(
                     f"A data set with name '{dataset_name}' already exists"
